@@ -453,6 +453,18 @@ def main(argv):
         print("unknown property %s" % a.pid)
         return 2
     chk = REGISTRY[a.pid](a.tier, seed)
+    # watchdog: a check that runs away is an infrastructure failure (exit 2), never a verdict
+    import signal
+    limit = int(os.environ.get("VERIF_TIMEOUT", "900" if a.tier == "quick" else "5400"))
+
+    def on_alarm(signum, frame):
+        import faulthandler
+        faulthandler.dump_traceback(file=sys.stderr)
+        print("INFRASTRUCTURE-ERROR property=%s timeout after %d s" % (a.pid, limit))
+        sys.stdout.flush()
+        os._exit(2)
+    signal.signal(signal.SIGALRM, on_alarm)
+    signal.alarm(limit)
     try:
         return chk.run(a.replay)
     except Exception:
